@@ -70,6 +70,7 @@ class QuerySimpleTemplateTransformation(QueryPostprocessingTransformation):
     template: str
 
     def apply(self, rule: SigmaRule | SigmaCorrelationRule, query: Any) -> Any:
+        super().apply(rule, query)
         return self.template.format(
             query=query,
             rule=rule,
@@ -96,6 +97,7 @@ class QueryTemplateTransformation(QueryPostprocessingTransformation, TemplateBas
     """
 
     def apply(self, rule: SigmaRule | SigmaCorrelationRule, query: Any) -> Any:
+        super().apply(rule, query)
         return self.render_template(query=query, rule=rule, pipeline=self._pipeline)
 
 
